@@ -25,7 +25,7 @@ class FloorProp(Prop):
     def gen(self, rng, index, tier):
         if self.crash_every and index % self.crash_every == self.crash_every - 1:
             return floorsim.gen_crashpoint(rng)
-        return floorsim.gen_case(rng, self.profile)
+        return floorsim.gen_case(rng, self.profile, big=(tier == 'thorough' and index % 4 == 0))
 
     def run(self, case):
         return floorsim.run_case(case, self.id)
